@@ -2,7 +2,7 @@
 import ast
 
 from ..model import AnalysisError, dotted, unparse
-from ..util import U, enum_paths, walk_no_nested, is_yield_call, is_socket_recv
+from ..util import FACTS, FACTS_I, U, enum_paths, walk_no_nested, is_yield_call, is_socket_recv
 from ..paths import call_attr, call_name, fmt_path
 from .c02 import io_raises, ensures_closed
 from . import c02
@@ -104,7 +104,7 @@ def r2(ctx):
   fl = prog.func(TS, 'SocketTransportSink._Fault')
   why = 'a failed transport must report itself closed and raise its fault signal exactly when it was not already closed'
   for ev, ex in enum_paths(ctx, fl):
-    fs = [(U(e.node).replace(' ', ''), e.info) for e in ev if e.kind == 'cond']
+    fs = FACTS(ev)
     cl = [i for i, e in enumerate(ev) if e.kind == 'call' and U(e.node.func) == 'self.Close']
     st = [i for i, e in enumerate(ev) if e.kind == 'call' and U(e.node.func).endswith('_on_faulted.Set')]
     if ('self.state==ChannelState.Closed', True) in fs:
@@ -117,7 +117,7 @@ def r2(ctx):
     sc = [e for e in ev if e.kind == 'call' and U(e.node.func) == 'self._socket.close']
     ok = w.get('self._state', '').endswith('ChannelState.Closed') and len(sc) == 1 and w.get('self._open_result') == 'None'
     ctx.ob('C08.R2', c, 'Close: state Closed, socket closed, open result reset', ok, 'Close writes %s, socket closes %d' % (w, len(sc)), why)
-    fs = [(U(e.node).replace(' ', ''), e.info) for e in ev if e.kind == 'cond']
+    fs = FACTS(ev)
     if ('self._processing', True) in fs:
       kills = [e.node for e in ev if e.kind == 'call' and call_attr(e.node) == 'kill']
       okk = len(kills) == 1 and any(k.arg == 'block' and U(k.value) == 'False' for k in kills[0].keywords) and any(
@@ -149,7 +149,7 @@ def r3(ctx):
          'socket may report open only while it is connected')
   seen = {}
   for ev, ex in enum_paths(ctx, st):
-    fs = [(U(e.node).replace(' ', ''), e.info) for e in ev if e.kind == 'cond']
+    fs = FACTS(ev)
     r = [e for e in ev if e.kind == 'ret']
     if ('self._socket.isOpen()', True) in fs:
       seen['open'] = bool(r) and U(r[-1].node.value).endswith('ChannelState.Open')
@@ -232,7 +232,7 @@ def r4(ctx):
          'fault signal; shutdown may be entered from the loops themselves, so it must not block/yield before it is done')
   n = 0
   for ev, ex in enum_paths(ctx, sd):
-    fs = [(U(e.node).replace(' ', ''), e.info) for e in ev if e.kind == 'cond']
+    fs = FACTS(ev)
     if ('notself.isActive', True) in fs or ('self.isActive', False) in fs:
       acts = [e for e in ev if e.kind in ('call', 'stmt')]
       ctx.ob('C08.R4', sd, 'shutdown is idempotent', not acts and ex[0] == 'ret', 'inactive branch performs work', why)
@@ -268,7 +268,7 @@ def r4(ctx):
   ctx.floor('C08.R4', 'active shutdown paths', n, 2)
   idem = False
   for ev, ex in enum_paths(ctx, sd):
-    fs = [(U(e.node).replace(' ', ''), e.info) for e in ev if e.kind == 'cond']
+    fs = FACTS(ev)
     if (('notself.isActive', True) in fs or ('self.isActive', False) in fs) and not [e for e in ev if e.kind in ('call', 'stmt')]:
       idem = True
   ctx.ob('C08.R4', sd, 'an inactive transport ignores a second shutdown', idem, 'no early-return path for an already closed transport',
@@ -312,7 +312,7 @@ def r5(ctx):
   h = prog.func(TM, 'SocketTransportSink._PingTimeoutHelper')
   seen = {}
   for ev, ex in enum_paths(ctx, h):
-    fs = [(U(e.node).replace(' ', ''), e.info) for e in ev if e.kind == 'cond']
+    fs = FACTS(ev)
     waits = [e.node for e in ev if e.kind == 'call' and call_attr(e.node) == 'wait']
     sdn = [e for e in ev if e.kind == 'call' and U(e.node.func) == 'self._Shutdown']
     okw = len(waits) == 1 and [U(a) for a in waits[0].args] == ['self._ping_timeout']
@@ -331,7 +331,7 @@ def r5(ctx):
   if ok:
     sends = 0
     for ev, ex in enum_paths(ctx, pl, body=loops[0].body):
-      fs = [(U(e.node).replace(' ', ''), e.info) for e in ev if e.kind == 'cond']
+      fs = FACTS(ev)
       s = [e for e in ev if e.kind == 'call' and U(e.node.func) == 'self._SendPingMessage']
       sl = [e for e in ev if e.kind == 'call' and call_name(e.node) == 'gevent.sleep']
       if ('self.isActive', True) in fs:
@@ -350,7 +350,7 @@ def r5(ctx):
   op = prog.func(TM, 'SocketTransportSink._OnPingResponse')
   seen = {}
   for ev, ex in enum_paths(ctx, op):
-    fs = [(U(e.node).replace(' ', ''), e.info) for e in ev if e.kind == 'cond']
+    fs = FACTS(ev)
     if ('msg_type==MessageType.Rping', True) in fs:
       seen['rping'] = any(e.kind == 'call' and U(e.node.func) == 'ar.set' for e in ev)
   ctx.ob('C08.R5', op, 'an Rping completes the outstanding ping', seen.get('rping', False), 'ping response handling changed', why)
